@@ -1,2 +1,101 @@
-(* placeholder until the C16 theorems are stated; see Model/Categorical.v *)
-From MiniMcmc Require Import Model.Categorical.
+(* C16 — Categorical sampling never returns an index of zero probability, the index is in
+   range, and under exact arithmetic index i is selected exactly on an interval of length p_i.
+   Model: Model/Categorical.v.  The sampling layer is IEEE-754 (Flocq), generic in the format,
+   so the statements hold for binary32 and binary64 and for every NaN-payload convention. *)
+From MiniMcmc Require Import Base.Fp Base.Util Model.Categorical Proofs.Categorical.
+From Coq Require Import Reals.
+Close Scope R_scope.
+
+Section C16_ieee.
+  Variables prec emax : Z.
+  Context (Hprec : FLX.Prec_gt_0 prec) (Hmax : BinarySingleNaN.Prec_lt_emax prec emax).
+  Notation fl := (binary_float prec emax).
+  Variable nanf : fl -> fl -> { x : fl | Binary.is_nan prec emax x = true }.
+
+  (* (a) For every non-empty probability vector (any IEEE values) and every variate r (any IEEE
+     value, including NaN and values >= 1) the sampled index is a valid index. *)
+  Theorem C16_in_range : forall (ps : list fl) (r : fl),
+    ps <> [] -> cat_sample nanf ps r < length ps.
+  Proof. exact (@cat_sample_in_range prec emax Hprec Hmax nanf). Qed.
+
+  (* (b) Every entry is strictly positive or a zero (of either sign), at least one is strictly
+     positive, and r is not below zero (NaN allowed): the sampled index has strictly positive
+     probability. *)
+  Theorem C16_never_zero : forall (ps : list fl) (r : fl),
+    (forall p, In p ps -> fpos p = true \/ exists s, p = Binary.B754_zero prec emax s) ->
+    (exists p, In p ps /\ fpos p = true) ->
+    flt r fzero = false ->
+    fpos (nth (cat_sample nanf ps r) ps fzero) = true.
+  Proof. exact (@cat_sample_never_zero prec emax Hprec Hmax nanf). Qed.
+End C16_ieee.
+
+(* (c) The rule before the repair (`r <= cum`, fallback len-1) violates the property: binary32,
+   weights [0.0; 1.0], r = +0.0 meets every hypothesis of C16_never_zero and index 0, of
+   probability zero, is returned. *)
+Theorem C16_old_rule_refuted :
+  exists (ps : list (binary_float 24 128)) (r : binary_float 24 128),
+    fpos (nth (cat_sample_old binop_nan_pl32 ps r) ps fzero) = false /\
+    (forall p, In p ps -> fpos p = true \/ exists s, p = Binary.B754_zero 24 128 s) /\
+    (exists p, In p ps /\ fpos p = true) /\
+    flt r fzero = false.
+Proof. exists old_ps, old_r. exact (proj2 old_rule_witness). Qed.
+
+Open Scope R_scope.
+
+(* (d) exact arithmetic: the constructor normalises, and the scan realises the categorical law *)
+Theorem C16_normalised : forall ws : list R,
+  (forall w, In w ws -> 0 <= w) -> 0 < sumlR ws ->
+  sumlR (cat_new_R ws) = 1 /\ (forall p, In p (cat_new_R ws) -> 0 <= p).
+Proof. exact cat_new_R_normalised. Qed.
+
+(* index i is returned exactly for r in [p_0+..+p_{i-1}, p_0+..+p_i), an interval of length p_i:
+   under a uniform variate, index i has probability p_i *)
+Theorem C16_law : forall (ps : list R) (r : R) (i : nat),
+  (forall p, In p ps -> 0 <= p) -> 0 <= r ->
+  (scan_R ps 0 0 r = Some i <-> (i < length ps)%nat /\ cumR ps i <= r < cumR ps (S i)).
+Proof. exact scan_R_law. Qed.
+
+Theorem C16_law_never_zero_R : forall (ps : list R) (r : R) (i : nat),
+  (forall p, In p ps -> 0 <= p) -> 0 <= r ->
+  scan_R ps 0 0 r = Some i -> 0 < nth i ps 0.
+Proof. exact scan_R_never_zero. Qed.
+
+(* Non-vacuity: the witness input of (c) meets every hypothesis of C16_never_zero, and the
+   repaired rule returns index 1 (probability 1.0) on it; through the bit-level instance: probs
+   [0.0; 1.0] then index 1. *)
+Example C16_repaired_on_witness :
+  cat_sample binop_nan_pl32 old_ps old_r = 1%nat /\
+  fpos (nth (cat_sample binop_nan_pl32 old_ps old_r) old_ps fzero) = true /\
+  cat_sample_old binop_nan_pl32 old_ps old_r = 0%nat /\
+  cat32 [0%Z; 1065353216%Z] 0%Z = [0%Z; 1065353216%Z; 1%Z].
+Proof.
+  split; [exact (proj1 new_rule_witness)|].
+  split; [exact (proj2 new_rule_witness)|].
+  split; [exact (proj1 old_rule_witness)|].
+  vm_compute; reflexivity.
+Qed.
+
+(* Non-vacuity of (d): ws = [0; 1; 3] gives probabilities [0; 1/4; 3/4]; r = 0 selects index 1 *)
+Example C16_real_hypotheses_satisfiable :
+  let ws := [0; 1; 3] in
+  (forall w, In w ws -> 0 <= w) /\ 0 < sumlR ws /\
+  scan_R (cat_new_R ws) 0 0 0 = Some 1%nat.
+Proof.
+  cbv zeta. split; [|split].
+  - intros w [<-|[<-|[<-|[]]]]; Lra.lra.
+  - simpl. Lra.lra.
+  - unfold cat_new_R. simpl.
+    destruct (Rlt_dec 0 (0 + 0 / (0 + (1 + (3 + 0))))) as [H|H].
+    + exfalso. unfold Rdiv in H. rewrite Rmult_0_l in H. Lra.lra.
+    + destruct (Rlt_dec 0 (0 + 0 / (0 + (1 + (3 + 0))) + 1 / (0 + (1 + (3 + 0))))) as [H'|H'];
+        [reflexivity|].
+      exfalso. apply H'. unfold Rdiv. rewrite Rmult_0_l.
+      assert (0 < / (0 + (1 + (3 + 0)))) by (apply Rinv_0_lt_compat; Lra.lra). Lra.lra.
+Qed.
+
+Print Assumptions C16_in_range.
+Print Assumptions C16_never_zero.
+Print Assumptions C16_old_rule_refuted.
+Print Assumptions C16_normalised.
+Print Assumptions C16_law.
+Print Assumptions C16_law_never_zero_R.
